@@ -132,8 +132,18 @@ func main() {
 			swapResults := false
 			otherBlockHeight := false
 			secondHeader := false
+			lastCertPhase := false
 			if !last {
-				switch r.Intn(22) {
+				switch r.Intn(24) {
+				case 22, 23:
+					// the block's header embeds, as the certificate of the previous block, a genuine +2/3 certificate of the same block
+					// and results in ANOTHER phase (the lock or election votes every honest member cast); the block is otherwise the
+					// honest one and is certified in the commit phase. The embedded certificate replaces the stored finality proof
+					// of the previous height: only a commit-phase certificate may
+					if goodView.Height > 1 {
+						lastCertPhase = true
+						kind = "last-certificate-of-another-phase"
+					}
 				case 0: // subset exactly at the threshold
 					signerIdx = sim.SignersForPower(vs, vs.MinimumMaj23)
 					kind = "subset-at-maj23"
@@ -265,6 +275,38 @@ func main() {
 				}
 				blockBytes = append(append([]byte{}, p.Block...), extra...)
 			}
+			if lastCertPhase {
+				b2 := new(lib.Block)
+				_ = lib.Unmarshal(p.Block, b2)
+				lq := b2.BlockHeader.LastQuorumCertificate
+				done := false
+				if lq != nil && lq.Header != nil && lq.Signature != nil {
+					if pvs, e := n.Committee(lq.Header.RootHeight); e == nil {
+						var who []int
+						for i := range pvs.ValidatorSet.ValidatorSet {
+							if i/8 < len(lq.Signature.Bitmap) && lq.Signature.Bitmap[i/8]&(1<<uint(i%8)) != 0 {
+								who = append(who, i)
+							}
+						}
+						lq.Header.Phase = []lib.Phase{lib.Phase_PROPOSE_VOTE, lib.Phase_ELECTION_VOTE}[r.Intn(2)]
+						if sg, e2 := sim.AggregateSign(pvs, lq.SignBytes(), who); e2 == nil {
+							lq.Signature = sg
+							b2.BlockHeader.Hash = nil
+							if _, e3 := b2.BlockHeader.SetHash(); e3 == nil {
+								blockBytes, _ = lib.Marshal(b2)
+								hh, _ := new(lib.Block).BytesToBlockHash(blockBytes)
+								qc.BlockHash, present.blockHash = hh, hh
+								signed.blockHash = hh
+								done = true
+							}
+						}
+					}
+				}
+				if !done {
+					lastCertPhase = false
+					kind = "valid"
+				}
+			}
 			if otherBlockHeight {
 				b2 := new(lib.Block)
 				_ = lib.Unmarshal(p.Block, b2)
@@ -336,6 +378,10 @@ func main() {
 			if derr == nil != committed {
 				sim.Direct(*outDir, map[string]any{"finding": "handlepeerblock-result-vs-version", "kind": "return value and version disagree", "mutation": kind})
 			}
+			if lastCertPhase && committed {
+				sim.Direct(*outDir, map[string]any{"finding": "last-certificate-of-another-phase-accepted", "kind": "a block whose header embeds a non-commit-phase certificate as the previous block's certificate was committed (the embedded certificate replaces the stored finality proof)",
+					"height": goodView.Height})
+			}
 			// ---- ground truth literal
 			bits := make([]string, len(bm)*8)
 			for i := range bits {
@@ -360,7 +406,7 @@ func main() {
 					txSize += len(t)
 				}
 				// b_applies: the honest proposal applies iff it is the unmodified block at this node's height
-				applies := !otherBlockHeight && !secondHeader
+				applies := !otherBlockHeight && !secondHeader && !lastCertPhase
 				// the hash of the header as decoded (merged), which is what the block that would be applied carries
 				hd := hb
 				if secondHeader {
